@@ -1,5 +1,6 @@
 import Mathlib.Tactic.Ring
 import Mathlib.Algebra.Order.Field.Rat
+import Mathlib.Data.String.Basic
 import PyPhysim.Model.C06Heap
 
 /-! C06: parameter grids — `np.union1d`, the order of `get_unpacked_params_list`
@@ -53,6 +54,48 @@ theorem sorted_union1d (a b : List Rat) : (union1d a b).Pairwise (· < ·) := by
   induction l with
   | nil => simp
   | cons y ys ih => exact sorted_insertUniq y _ ih
+
+/-! ### the order of the parameter names -/
+
+theorem perm_insertByName {α : Type} (e : String × α) (l : List (String × α)) :
+    (insertByName e l).Perm (e :: l) := by
+  induction l with
+  | nil => exact List.Perm.refl _
+  | cons x xs ih =>
+    simp only [insertByName]
+    split
+    · exact List.Perm.refl _
+    · exact (List.Perm.cons x ih).trans (List.Perm.swap e x xs)
+
+theorem perm_sortByName {α : Type} (l : List (String × α)) : (sortByName l).Perm l := by
+  induction l with
+  | nil => exact List.Perm.refl _
+  | cons x xs ih => exact (perm_insertByName x _).trans (List.Perm.cons x ih)
+
+theorem sorted_insertByName {α : Type} (e : String × α) (l : List (String × α))
+    (h : l.Pairwise (fun a b => a.1 ≤ b.1)) : (insertByName e l).Pairwise (fun a b => a.1 ≤ b.1) := by
+  induction l with
+  | nil => simp [insertByName]
+  | cons x xs ih =>
+    obtain ⟨h1, h2⟩ := List.pairwise_cons.mp h
+    simp only [insertByName]
+    split
+    · rename_i hlt
+      refine List.pairwise_cons.mpr ⟨fun a ha => ?_, h⟩
+      rcases List.mem_cons.mp ha with e' | e'
+      · exact e' ▸ le_of_lt hlt
+      · exact le_trans (le_of_lt hlt) (h1 a e')
+    · rename_i hnl
+      refine List.pairwise_cons.mpr ⟨fun a ha => ?_, ih h2⟩
+      rcases List.mem_cons.mp ((perm_insertByName e xs).mem_iff.mp ha) with hae | hae
+      · exact hae ▸ not_lt.mp hnl
+      · exact h1 a hae
+
+theorem sorted_sortByName {α : Type} (l : List (String × α)) :
+    (sortByName l).Pairwise (fun a b => a.1 ≤ b.1) := by
+  induction l with
+  | nil => simp [sortByName]
+  | cons x xs ih => exact sorted_insertByName x _ ih
 
 /-! ### product order and pack index -/
 
